@@ -1741,6 +1741,19 @@ impl<'a, C: Crypto> TransportRunner<'a, C> {
                     packet
                 );
             }
+            Err(e)
+                if matches!(e.code(), ErrorCode::NoSession)
+                    && !packet.header.plain.is_encrypted() =>
+            {
+                // An unsecured message that neither belongs to an existing unsecured
+                // session nor may open one. It carries no session, so there is nothing
+                // to report as "not found" - and answering it would make two nodes
+                // bounce unsecured `SessionNotFound` status reports off each other forever.
+                mrp_log!(
+                    "\n>>RCV {}\n      => No unsecured session for this message, dropping",
+                    packet
+                );
+            }
             Err(e) if matches!(e.code(), ErrorCode::NoSession) => {
                 // Per Matter Core spec, when a session-bearing
                 // message arrives for which we have no matching secure session
